@@ -565,6 +565,14 @@ def exhaustive(ctx):
         cases.append(dict(h=3, w=10, screen=[], sb=[], cursor=(crow, 0), hide=True, keep=False, pyte=False,
                           steps=[("E",), ("R", (0, 0), two, "list", dict(prestr=pre)),
                                  ("R", (1, 1), two, "list", dict(same_rows=True, prestr=pre)), ("X",)]))
+    # unformatted rows whose text reads like the str() of a cache placeholder (None) or of another falsy value, drawn on a
+    # first render, over blank rows and after a render that left the row blank
+    for text, crow in itertools.product(("None", "", "0", "False", "[]"), (0, 1)):
+        row = [[(text, {})]] if text else [[]]
+        for cont in ("list", "fsarray:5", "mixed"):
+            cases.append(dict(h=3, w=5, screen=[[("#", ())] * 5] * 3, sb=[], cursor=(crow, 0), hide=True, keep=False, pyte=False,
+                              steps=[("E",), ("R", (0, 0), row, cont), ("R", (0, 0), [], "list"), ("R", (1, 0), [[]] + row, cont),
+                                     ("R", (0, 0), [[("x", {"fg": 31})]], "list"), ("R", (0, 0), row + row, cont), ("X",)]))
     # leaving with keep_last_line on/off with the cursor on EVERY row, in particular the bottom one (the kept line must
     # survive: the screen scrolls one line), after 0-2 rendered rows
     for h2, crow, n, keep in itertools.product((1, 2, 3), range(3), range(3), (0, 1)):
